@@ -14,7 +14,7 @@ CONSTANTS NOps, MaxWorkers
 Beh == {"ok", "bad", "badif", "neterr", "invalid", "weird"}
 LinkBeh == {"none", "ok", "bad"}
 PhaseSets == {<<"coverage">>, <<"fuzzing">>, <<"coverage", "fuzzing">>, <<"examples", "coverage", "fuzzing", "stateful">>,
-              <<"fuzzing", "stateful">>, <<"stateful">>}
+              <<"fuzzing", "stateful">>, <<"stateful">>, <<"probing", "coverage", "fuzzing">>}
 HasStateful(ps) == \E i \in 1..Len(ps) : ps[i] = "stateful"
 Desc == {d \in [ops : [1..NOps -> Beh], links : LinkBeh, phases : PhaseSets, workers : 1..MaxWorkers,
                 max_failures : {0, 1, 2}, cof : BOOLEAN, unique : BOOLEAN] :
